@@ -229,29 +229,32 @@ def job_subsets(job):
     if prog != "assemble":
         hv = D.save_vcf(stddata.run(D.assemble_args(bed=bed)), "asm_in.vcf")
         env.quiet()
-    alone = {}
-    for s in SAMPLES:
-        hdr, samples, recs = run_prog(D, prog, [s], seed, bed, hv)
-        alone[s] = column(recs, samples, s)
-    for k in (2, 3):
-        for sub in itertools.permutations(SAMPLES, k):
-            hdr, samples, recs = run_prog(D, prog, list(sub), seed, bed, hv)
-            r.evaluations += 1
-            r.nontrivial += 1
-            tag = "%s|seed=%d|bams=%s" % (prog, seed, list(sub))
-            if samples != list(sub):
-                r.violation("column-order|%s" % prog, "sample columns %r for BAM arguments %r" % (samples, list(sub)), payload)
-                continue
-            for s in sub:
-                col = column(recs, samples, s)
-                if prog == "assemble":
-                    compare_assemble(r, payload, tag + "|sample=" + s, alone[s], col)
-                else:
-                    for (lid, fmt_a, va, al_a), (_, fmt_t, vt, al_t) in zip(alone[s], col):
-                        if va != vt or fmt_a != fmt_t or al_a != al_t:
-                            diff = [(f, a, b) for f, a, b in zip(fmt_a, va, vt) if a != b]
-                            r.violation("independent|%s|seed=%d" % (prog, seed), "locus %s sample %s: alone vs with %r differs in %r (%s)" % (lid, s, list(sub), diff[:4], tag), payload)
-            r.outcome((prog, seed, sub, tuple(tuple(c[2]) for c in column(recs, samples, sub[0]))))
+    uncovered = "S0" in SAMPLES
+    # with a read-less sample also at a high reporting threshold: that sample then has no haplotype to report at all, which must not affect the others
+    for extra in ([[], ["--haplotype-posterior-threshold", "0.6"]] if (uncovered and prog == "assemble") else [[]]):
+        alone = {}
+        for s in SAMPLES:
+            hdr, samples, recs = run_prog(D, prog, [s], seed, bed, hv, extra=extra)
+            alone[s] = column(recs, samples, s)
+        for k in (2, 3):
+            for sub in itertools.permutations(SAMPLES, k):
+                hdr, samples, recs = run_prog(D, prog, list(sub), seed, bed, hv, extra=extra)
+                r.evaluations += 1
+                r.nontrivial += 1
+                tag = "%s|seed=%d|bams=%s%s" % (prog, seed, list(sub), "|" + " ".join(extra) if extra else "")
+                if samples != list(sub):
+                    r.violation("column-order|%s" % prog, "sample columns %r for BAM arguments %r" % (samples, list(sub)), payload)
+                    continue
+                for s in sub:
+                    col = column(recs, samples, s)
+                    if prog == "assemble":
+                        compare_assemble(r, payload, tag + "|sample=" + s, alone[s], col)
+                    else:
+                        for (lid, fmt_a, va, al_a), (_, fmt_t, vt, al_t) in zip(alone[s], col):
+                            if va != vt or fmt_a != fmt_t or al_a != al_t:
+                                diff = [(f, a, b) for f, a, b in zip(fmt_a, va, vt) if a != b]
+                                r.violation("independent|%s|seed=%d" % (prog, seed), "locus %s sample %s: alone vs with %r differs in %r (%s)" % (lid, s, list(sub), diff[:4], tag), payload)
+                r.outcome((prog, seed, sub, tuple(extra), tuple(tuple(c[2]) for c in column(recs, samples, sub[0]))))
     r.sample({"program": prog, "seed": seed, "samples": SAMPLES, "ordered_subsets": 12, "loci": loci_names(tier)})
     return r
 
